@@ -117,6 +117,23 @@ func Gen(r *vh.Rand, k Knobs) *Scenario {
 			}
 			q.Script = append(q.Script, a)
 		}
+		// HandleRequestFinish filters (verdicts of up to 4 chained modules) and, rarely, a HandleBeforeLocation
+		// module that ends the request before a backend is selected
+		q.Pre = '-'
+		if r.Chance(1, 2) {
+			n := r.Range(1, MaxFinFilters)
+			f := make([]byte, n)
+			for j := range f {
+				f[j] = "ggggfrpc!"[r.Intn(9)]
+				if r.Chance(1, 4) {
+					f[j] = 'f'
+				}
+			}
+			q.Finish = string(f)
+		}
+		if r.Chance(1, 12) {
+			q.Pre = "fcr"[r.Intn(3)]
+		}
 		s.Reqs = append(s.Reqs, q)
 	}
 	// schedule: every request is invoked once and then finished once
